@@ -148,29 +148,79 @@ Proof.
   rewrite (read_u32s_length _ _ _ _ H). lia.
 Qed.
 
-(* the insertion loop of HashSet::deserialize never reaches "HashSet full" *)
+Definition BOK (bs : list N) : Prop := Forall (fun b => b < 256) bs.
+
+Lemma BOK_bytes_ok : forall bs, BOK bs -> bytes_ok bs = true.
+Proof.
+  intros bs H. unfold bytes_ok. apply forallb_forall. intros b Hb. unfold BOK in H. rewrite Forall_forall in H.
+  specialize (H b Hb). unfold byte_ok. lia.
+Qed.
+
+Lemma take_ok : forall n bs d r, take n bs = Ok (d, r) -> bs = d ++ r /\ length d = n.
+Proof.
+  intros n bs d r H. unfold take in H. destruct (Nat.ltb_spec (length bs) n); [discriminate|]. inversion H; subst.
+  split; [symmetry; apply firstn_skipn|]. apply firstn_length_le. lia.
+Qed.
+
+Lemma take_BOK : forall n bs d r, BOK bs -> take n bs = Ok (d, r) -> BOK d /\ BOK r.
+Proof.
+  intros n bs d r HB H. destruct (take_ok _ _ _ _ H) as [-> _]. unfold BOK in *. apply Forall_app in HB. assumption.
+Qed.
+
+Lemma le_val_4_bound : forall d, BOK d -> length d = 4%nat -> le_val d < 2 ^ 32.
+Proof.
+  intros d HB Hl. pose proof (le_val_bound d (BOK_bytes_ok d HB)) as H. rewrite Hl in H.
+  change (256 ^ N.of_nat 4) with (2 ^ 32) in H. assumption.
+Qed.
+
+Lemma read_u32s_BOK : forall n bs vs r, BOK bs -> read_u32s n bs = Ok (vs, r) -> (forall c, In c vs -> c < 2 ^ 32) /\ BOK r.
+Proof.
+  induction n; intros bs vs r HB H; cbn [read_u32s] in H.
+  - inversion H; subst. split; [intros c []|assumption].
+  - destruct (take 4 bs) as [[d r1]| |] eqn:Et; cbn [obind] in H; try discriminate. cbn [fst snd] in H.
+    destruct (take_BOK _ _ _ _ HB Et) as [HBd HBr]. destruct (take_ok _ _ _ _ Et) as [_ Hl].
+    destruct (read_u32s n r1) as [[vs' r']| |] eqn:Er; cbn [obind] in H; try discriminate. cbn [fst snd] in H.
+    inversion H; subst. destruct (IHn _ _ _ HBr Er) as [A B]. split; [|assumption].
+    intros c [<-|Hc]; [now apply le_val_4_bound|now apply A].
+Qed.
+
+(* the insertion loop of HashSet::deserialize never reaches "HashSet full"; the set it builds holds
+   exactly the non-empty coupons read, none of which has value 0 *)
 Lemma set_insert_all_spec : forall lg compact vs st S, SetRep lg st S -> hs_len st + N.of_nat (length vs) <= 2 ^ lg ->
   NS (set_insert_all compact vs st) /\
   forall st', set_insert_all compact vs st = Ok st' ->
-    exists S', SetRep lg st' S' /\ hs_len st' <= hs_len st + N.of_nat (length vs).
+    exists S', SetRep lg st' S' /\ hs_len st' <= hs_len st + N.of_nat (length vs) /\
+      (forall c, In c S' <-> In c S \/ (In c vs /\ c <> 0)) /\
+      (forall c, In c vs -> c <> 0 -> get_value c <> 0).
 Proof.
   intros lg compact. induction vs as [|v r IH]; intros st S HR Hlen; cbn [set_insert_all].
-  - split; [discriminate|]. intros st' H. inversion H; subst. exists S. split; [assumption|lia].
+  - split; [discriminate|]. intros st' H. inversion H; subst. exists S. split; [assumption|]. split; [lia|].
+    split; [intros c; cbn [In]; tauto|intros c []].
   - cbn [length] in Hlen. rewrite COUPON_EMPTY_0. destruct (N.eqb_spec v 0) as [E|E].
     + destruct compact; [split; [discriminate|discriminate]|].
-      destruct (IH st S HR ltac:(lia)) as [A B]. split; [assumption|]. intros st' H. destruct (B st' H) as (S' & HR' & Hl).
-      exists S'. split; [assumption|cbn [length]; lia].
-    + destruct (set_update_spec lg st S v HR ltac:(lia) E) as (st1 & Hu & HR1 & Hold & Hnew). rewrite Hu. cbn [obind].
+      destruct (IH st S HR ltac:(lia)) as [A B]. split; [assumption|]. intros st' H. destruct (B st' H) as (S' & HR' & Hl & Hin & Hval).
+      exists S'. split; [assumption|]. split; [cbn [length]; lia|]. split.
+      * intros c. rewrite (Hin c). cbn [In]. split; [intros [?|[? ?]]; [now left|right; split; [now right|assumption]]|].
+        intros [?|[[?|?] ?]]; [now left|congruence|right; now split].
+      * intros c [<-|Hc] Hc0; [congruence|now apply Hval].
+    + destruct (N.eqb_spec (get_value v) 0) as [Ev|Ev]; [split; [discriminate|discriminate]|].
+      destruct (set_update_spec lg st S v HR ltac:(lia) E) as (st1 & Hu & HR1 & Hold & Hnew). rewrite Hu. cbn [obind].
       assert (Hl1 : hs_len st1 <= hs_len st + 1).
       { destruct (in_dec N.eq_dec v S) as [Hin|Hnin]; [rewrite (Hold Hin); lia|rewrite (Hnew Hnin); lia]. }
-      destruct (IH st1 (v :: S) HR1 ltac:(lia)) as [A B]. split; [assumption|]. intros st' H. destruct (B st' H) as (S' & HR' & Hl).
-      exists S'. split; [assumption|cbn [length]; lia].
+      destruct (IH st1 (v :: S) HR1 ltac:(lia)) as [A B]. split; [assumption|]. intros st' H.
+      destruct (B st' H) as (S' & HR' & Hl & Hin & Hval).
+      exists S'. split; [assumption|]. split; [cbn [length]; lia|]. split.
+      * intros c. rewrite (Hin c). cbn [In]. split.
+        -- intros [[<-|?]|[? ?]]; [right; split; [now left|assumption]|now left|right; split; [now right|assumption]].
+        -- intros [?|[[<-|?] ?]]; [left; now right|left; now left|right; now split].
+      * intros c [<-|Hc] Hc0; [assumption|now apply Hval].
 Qed.
 
 Lemma set_deserialize_spec : forall bs lg compact,
   NS (set_deserialize bs lg compact) /\
   forall st, set_deserialize bs lg compact = Ok st ->
-    hs_lg st = lg /\ (exists S, SetRep lg st S) /\ 4 * hs_len st <= 3 * 2 ^ lg.
+    hs_lg st = lg /\ (exists S, SetRep lg st S /\ (forall c, In c S -> c <> 0 /\ get_value c <> 0) /\
+                       (BOK bs -> forall c, In c S -> c < 2 ^ 32)) /\ 4 * hs_len st <= 3 * 2 ^ lg.
 Proof.
   intros bs lg compact. unfold set_deserialize, set_overloaded. rewrite RESIZE_NUM_3, RESIZE_DEN_4.
   destruct (take 4 bs) as [p| |] eqn:Et; cbn [obind]; [|split; [discriminate|discriminate]|exfalso; now apply (take_ns 4 bs)].
@@ -184,9 +234,16 @@ Proof.
   { unfold set_new. cbn [hs_len]. rewrite Hlen. unfold stored. destruct compact; [cbn [andb] in Eov; lia|lia]. }
   destruct (set_insert_all_spec lg compact vs (set_new lg) [] (set_new_rep lg) Hfit) as [Hns Hok].
   destruct (set_insert_all compact vs (set_new lg)) as [st| |] eqn:Ei; cbn [obind]; [|split; [discriminate|discriminate]|contradiction].
-  destruct (Hok st eq_refl) as (S' & HR' & _).
+  destruct (Hok st eq_refl) as (S' & HR' & _ & Hin & Hval).
+  destruct (negb (hs_len st =? count)); [split; [discriminate|discriminate]|].
   destruct (N.ltb_spec (3 * 2 ^ lg) (4 * hs_len st)); [split; [discriminate|discriminate]|].
-  split; [discriminate|]. intros st' Hst. inversion Hst; subst st'. split; [now destruct HR'|]. split; [now exists S'|assumption].
+  split; [discriminate|]. intros st' Hst. inversion Hst; subst st'. split; [now destruct HR'|]. split; [|assumption].
+  exists S'. split; [assumption|]. split.
+  - intros c Hc. apply Hin in Hc. destruct Hc as [[]|[Hc Hc0]]. split; [assumption|now apply Hval].
+  - intros HB c Hc. apply Hin in Hc. destruct Hc as [[]|[Hc _]].
+    destruct p as [d rest]. destruct (take_BOK 4 bs d rest HB Et) as [_ HBr]. cbn [snd] in Er.
+    unfold read_count_u32s in Er. destruct (N.of_nat (length rest) <? 4 * stored); [discriminate|].
+    now apply (proj1 (read_u32s_BOK _ _ _ _ HBr Er)).
 Qed.
 
 (* the aux loop of Array4::deserialize never reaches an unreachable!() of the aux map *)
@@ -225,6 +282,12 @@ Proof.
       * intros c' v [<-|Hc'] Hmv; [now apply (Hnone v)|]. apply (Hfresh c' v Hc'). apply Hm1. now right.
 Qed.
 
+Lemma list_insert_all_ns : forall vs l, NS (list_insert_all vs l).
+Proof.
+  induction vs as [|v r IH]; intros l; cbn [list_insert_all]; [discriminate|].
+  destruct (v =? COUPON_EMPTY); [apply IH|]. destruct (get_value v =? 0); [discriminate|apply IH].
+Qed.
+
 Lemma a4_scan_ns : forall bytes cm slots num tokens, NS (a4_scan bytes cm slots num tokens).
 Proof.
   intros bytes cm. induction slots as [|s r IH]; intros num tokens; cbn [a4_scan]; [discriminate|].
@@ -233,12 +296,14 @@ Qed.
 
 Lemma read_hll_body_ns : forall bs n ooo, NS (read_hll_body bs n ooo).
 Proof.
-  intros. unfold read_hll_body. repeat (apply ns_bind; [apply take_ns|intros ? _]). discriminate.
+  intros. unfold read_hll_body. do 3 (apply ns_bind; [apply take_ns|intros ? _]). destruct (negb _); [discriminate|].
+  repeat (apply ns_bind; [apply take_ns|intros ? _]). discriminate.
 Qed.
 
 Lemma a4_deserialize_ns : forall bs cm lgk ooo, 4 <= lgk <= 21 -> NS (a4_deserialize bs cm lgk ooo).
 Proof.
-  intros bs cm lgk ooo Hlg. unfold a4_deserialize. repeat (apply ns_bind; [apply take_ns|intros ? _]).
+  intros bs cm lgk ooo Hlg. unfold a4_deserialize. do 3 (apply ns_bind; [apply take_ns|intros ? _]).
+  destruct (negb (image_fields_ok _ _ _)); [discriminate|]. repeat (apply ns_bind; [apply take_ns|intros ? _]).
   destruct (MAX_VALUE <? cm); [discriminate|]. apply ns_bind; [apply take_ns|intros p6 _].
   apply ns_bind; [apply a4_scan_ns|intros [num tokens] _]. destruct (negb _); [discriminate|].
   destruct (_ =? 0); [discriminate|]. apply ns_bind; [apply read_count_ns|intros q _].
@@ -257,8 +322,9 @@ Proof.
   destruct (_ =? 3); [discriminate|].
   destruct (_ =? MODE_LIST).
   { destruct (negb _); [discriminate|]. destruct (negb _); [discriminate|]. apply ns_bind; [|intros; discriminate].
-    unfold list_deserialize. destruct (_ <=? _); [discriminate|]. destruct (_ && _); [|discriminate].
-    apply ns_bind; [apply read_count_ns|intros; discriminate]. }
+    unfold list_deserialize. destruct (_ <=? _); [discriminate|].
+    apply ns_bind; [|intros l _; destruct (negb _); discriminate]. destruct (_ && _); [|discriminate].
+    apply ns_bind; [apply read_count_ns|intros p _; apply list_insert_all_ns]. }
   destruct (_ =? MODE_SET).
   { destruct (negb _); [discriminate|]. destruct (nth 3 bs 0 <? 8); [discriminate|].
     destruct ((nth 4 bs 0 <? LG_MIN_SET_SIZE) || _); [discriminate|].
@@ -403,42 +469,6 @@ Proof.
     exists c. split; [assumption|]. split; [assumption|]. unfold regs. rewrite E15. change (15 <? 15) with false. cbv iota. assumption.
 Qed.
 
-Definition BOK (bs : list N) : Prop := Forall (fun b => b < 256) bs.
-
-Lemma BOK_bytes_ok : forall bs, BOK bs -> bytes_ok bs = true.
-Proof.
-  intros bs H. unfold bytes_ok. apply forallb_forall. intros b Hb. unfold BOK in H. rewrite Forall_forall in H.
-  specialize (H b Hb). unfold byte_ok. lia.
-Qed.
-
-Lemma take_ok : forall n bs d r, take n bs = Ok (d, r) -> bs = d ++ r /\ length d = n.
-Proof.
-  intros n bs d r H. unfold take in H. destruct (Nat.ltb_spec (length bs) n); [discriminate|]. inversion H; subst.
-  split; [symmetry; apply firstn_skipn|]. apply firstn_length_le. lia.
-Qed.
-
-Lemma take_BOK : forall n bs d r, BOK bs -> take n bs = Ok (d, r) -> BOK d /\ BOK r.
-Proof.
-  intros n bs d r HB H. destruct (take_ok _ _ _ _ H) as [-> _]. unfold BOK in *. apply Forall_app in HB. assumption.
-Qed.
-
-Lemma le_val_4_bound : forall d, BOK d -> length d = 4%nat -> le_val d < 2 ^ 32.
-Proof.
-  intros d HB Hl. pose proof (le_val_bound d (BOK_bytes_ok d HB)) as H. rewrite Hl in H.
-  change (256 ^ N.of_nat 4) with (2 ^ 32) in H. assumption.
-Qed.
-
-Lemma read_u32s_BOK : forall n bs vs r, BOK bs -> read_u32s n bs = Ok (vs, r) -> (forall c, In c vs -> c < 2 ^ 32) /\ BOK r.
-Proof.
-  induction n; intros bs vs r HB H; cbn [read_u32s] in H.
-  - inversion H; subst. split; [intros c []|assumption].
-  - destruct (take 4 bs) as [[d r1]| |] eqn:Et; cbn [obind] in H; try discriminate. cbn [fst snd] in H.
-    destruct (take_BOK _ _ _ _ HB Et) as [HBd HBr]. destruct (take_ok _ _ _ _ Et) as [_ Hl].
-    destruct (read_u32s n r1) as [[vs' r']| |] eqn:Er; cbn [obind] in H; try discriminate. cbn [fst snd] in H.
-    inversion H; subst. destruct (IHn _ _ _ HBr Er) as [A B]. split; [|assumption].
-    intros c [<-|Hc]; [now apply le_val_4_bound|now apply A].
-Qed.
-
 Lemma list_nth_Nseq : forall (l : list N), map (fun j => nth (N.to_nat j) l 0) (Nseq 0 (length l)) = l.
 Proof.
   intros l. assert (H : forall s, map (fun j => nth (N.to_nat (j - s)) l 0) (Nseq s (length l)) = l).
@@ -454,25 +484,51 @@ Proof.
   intros p l. unfold count_regs. rewrite Nat2N.id. rewrite <- (list_nth_Nseq l) at 1. now rewrite filter_map_len.
 Qed.
 
+(* the estimator fields of an accepted array image are finite and non-negative (check_image_field,
+   /repo fix 08d9c35): no NaN / infinity / negative value reaches the composite estimator *)
+Definition est_wf (e : hip) : Prop :=
+  image_field_ok (h_accum e) = true /\ image_field_ok (h_kxq0 e) = true /\ image_field_ok (h_kxq1 e) = true.
+
+Lemma est_of_image_wf : forall d1 d2 d3 ooo, image_fields_ok d1 d2 d3 = true -> est_wf (est_of_image d1 d2 d3 ooo).
+Proof.
+  intros d1 d2 d3 ooo H. unfold image_fields_ok in H. apply andb_prop in H. destruct H as [H H3]. apply andb_prop in H. destruct H as [H1 H2].
+  unfold est_wf, est_of_image, hip_set_ooo. cbn [h_accum h_kxq0 h_kxq1]. split; [|split; assumption].
+  destruct ooo; [reflexivity|assumption].
+Qed.
+
+Lemma read_hll_body_ok : forall bs n ooo e auxc data rest, read_hll_body bs n ooo = Ok (e, auxc, data, rest) ->
+  length data = N.to_nat n /\ (BOK bs -> BOK data /\ BOK rest) /\ est_wf e.
+Proof.
+  intros bs n ooo e auxc data rest H. unfold read_hll_body in H.
+  destruct (take 8 bs) as [[d1 r1]| |] eqn:E1; cbn [obind fst snd] in H; try discriminate.
+  destruct (take 8 r1) as [[d2 r2]| |] eqn:E2; cbn [obind fst snd] in H; try discriminate.
+  destruct (take 8 r2) as [[d3 r3]| |] eqn:E3; cbn [obind fst snd] in H; try discriminate.
+  destruct (image_fields_ok d1 d2 d3) eqn:Ef; cbn [negb] in H; [|discriminate].
+  destruct (take 4 r3) as [[d4 r4]| |] eqn:E4; cbn [obind fst snd] in H; try discriminate.
+  destruct (take 4 r4) as [[d5 r5]| |] eqn:E5; cbn [obind fst snd] in H; try discriminate.
+  destruct (take (N.to_nat n) r5) as [[d6 r6]| |] eqn:E6; cbn [obind fst snd] in H; try discriminate.
+  inversion H; subst. split; [now destruct (take_ok _ _ _ _ E6)|]. split; [|now apply est_of_image_wf].
+  intros HB. destruct (take_BOK _ _ _ _ HB E1) as [_ B1]. destruct (take_BOK _ _ _ _ B1 E2) as [_ B2].
+  destruct (take_BOK _ _ _ _ B2 E3) as [_ B3]. destruct (take_BOK _ _ _ _ B3 E4) as [_ B4].
+  destruct (take_BOK _ _ _ _ B4 E5) as [_ B5]. apply (take_BOK _ _ _ _ B5 E6).
+Qed.
+
 (* an accepted Hll8 array: registers within 6 bits, num_zeros exact, nothing beyond k *)
 Lemma a8_deserialize_ok : forall bs lgk ooo a, a8_deserialize bs lgk ooo = Ok a ->
   a8_lgk a = lgk /\ (forall j, a8_get a j <= 63) /\ (forall j, 2 ^ lgk <= j -> a8_get a j = 0) /\
-  a8_nz a = count_regs (2 ^ lgk) (fun j => a8_get a j =? 0).
+  a8_nz a = count_regs (2 ^ lgk) (fun j => a8_get a j =? 0) /\ est_wf (a8_est a).
 Proof.
   intros bs lgk ooo a H. unfold a8_deserialize in H.
   destruct (read_hll_body bs (2 ^ lgk) ooo) as [[[[e n] data] rest]| |] eqn:Eb; cbn [obind] in H; try discriminate.
-  assert (Hlen : length data = N.to_nat (2 ^ lgk)).
-  { unfold read_hll_body in Eb.
-    repeat match type of Eb with obind (take ?n ?x) _ = _ => destruct (take n x) as [[? ?]| |] eqn:?; cbn [obind fst snd] in Eb; try discriminate end.
-    inversion Eb; subst. match goal with Ht : take (N.to_nat (2 ^ lgk)) _ = Ok (data, _) |- _ => now destruct (take_ok _ _ _ _ Ht) end. }
+  destruct (read_hll_body_ok _ _ _ _ _ _ _ Eb) as (Hlen & _ & Hew).
   destruct (existsb (fun v => MAX_VALUE <? v) data) eqn:Ex; [discriminate|]. inversion H; subst a. clear H.
-  unfold a8_get. cbn [a8_lgk a8_bytes a8_nz].
+  unfold a8_get. cbn [a8_lgk a8_bytes a8_nz a8_est].
   assert (Hget : forall j, aget (arr_of_list 0 data aempty) j = if j <? 2 ^ lgk then nth (N.to_nat j) data 0 else 0).
   { intros j. rewrite arr_of_list_get, Hlen, N2Nat.id, N.add_0_l, N.sub_0_r, aget_empty. replace (0 <=? j) with true by lia. reflexivity. }
   assert (H63 : forall v, In v data -> v <= 63).
   { intros v Hv. destruct (N.leb_spec v 63); [assumption|]. exfalso.
     assert (existsb (fun v => MAX_VALUE <? v) data = true); [|congruence]. apply existsb_exists. exists v. split; [assumption|]. unfold MAX_VALUE. lia. }
-  split; [reflexivity|]. split; [|split].
+  split; [reflexivity|]. split; [|split; [|split; [|assumption]]].
   - intros j. rewrite Hget. destruct (j <? 2 ^ lgk); [|lia].
     destruct (nth_in_or_default (N.to_nat j) data 0) as [Hin|Hd]; [now apply H63|rewrite Hd; lia].
   - intros j Hj. rewrite Hget. replace (j <? 2 ^ lgk) with false by lia. reflexivity.
@@ -480,14 +536,26 @@ Proof.
     rewrite Hget. replace (j <? 2 ^ lgk) with true by lia. reflexivity.
 Qed.
 
+(* an accepted Hll6 array: a byte array, num_zeros exact *)
+Lemma a6_deserialize_ok : forall bs lgk ooo a, BOK bs -> a6_deserialize bs lgk ooo = Ok a ->
+  a6_lgk a = lgk /\ WFb (a6_bytes a) /\ a6_nz a = count_regs (2 ^ lgk) (fun j => a6_get a j =? 0) /\ est_wf (a6_est a).
+Proof.
+  intros bs lgk ooo a HB H. unfold a6_deserialize in H.
+  destruct (read_hll_body bs (a6_num_bytes lgk) ooo) as [[[[e n] data] rest]| |] eqn:Eb; cbn [obind] in H; try discriminate.
+  destruct (read_hll_body_ok _ _ _ _ _ _ _ Eb) as (_ & HBd & Hew). inversion H; subst a. unfold a6_get. cbn [a6_lgk a6_bytes a6_nz a6_est].
+  split; [reflexivity|]. split; [apply arr_of_list_WF; now apply HBd|]. split; [reflexivity|assumption].
+Qed.
+
 (* an accepted Hll4 array satisfies the Array4 invariant of C02 for some register file <= 63 *)
 Lemma a4_deserialize_ok : forall bs cm lgk ooo a, BOK bs -> 4 <= lgk <= 21 -> a4_deserialize bs cm lgk ooo = Ok a ->
-  exists regs, Inv4 lgk regs a /\ (forall j, j < 2 ^ lgk -> regs j <= 63).
+  (exists regs, Inv4 lgk regs a /\ (forall j, j < 2 ^ lgk -> regs j <= 63)) /\ est_wf (a4_est a).
 Proof.
   intros bs cm lgk ooo a HB Hlg H. unfold a4_deserialize in H.
   destruct (take 8 bs) as [[d1 r1]| |] eqn:E1; cbn [obind fst snd] in H; try discriminate.
   destruct (take 8 r1) as [[d2 r2]| |] eqn:E2; cbn [obind fst snd] in H; try discriminate.
   destruct (take 8 r2) as [[d3 r3]| |] eqn:E3; cbn [obind fst snd] in H; try discriminate.
+  destruct (image_fields_ok d1 d2 d3) eqn:Ef; cbn [negb] in H; [|discriminate].
+  pose proof (est_of_image_wf d1 d2 d3 ooo Ef) as Hew.
   destruct (take 4 r3) as [[d4 r4]| |] eqn:E4; cbn [obind fst snd] in H; try discriminate.
   destruct (take 4 r4) as [[d5 r5]| |] eqn:E5; cbn [obind fst snd] in H; try discriminate.
   unfold MAX_VALUE in H. destruct (N.ltb_spec 63 cm) as [|Hcm]; [discriminate|].
@@ -500,16 +568,17 @@ Proof.
   destruct HB6 as [HBd HBr]. pose proof (arr_of_list_WF d6 HBd) as W.
   destruct (N.eqb_spec (le_val d5) tokens) as [Etok|]; [|discriminate]. cbn [negb] in H.
   destruct (N.eqb_spec (le_val d5) 0) as [E0|E0].
-  - inversion H; subst a. destruct (a4_built_inv lgk _ cm num tokens [] None (est_of_image d1 d2 d3 ooo) Hlg W Hcm Es) as (regs & HI & Hb & _).
+  - inversion H; subst a. split; [|exact Hew].
+    destruct (a4_built_inv lgk _ cm num tokens [] None (est_of_image d1 d2 d3 ooo) Hlg W Hcm Es) as (regs & HI & Hb & _).
     + cbn [length]. lia.
     + intros c [].
     + left. split; [lia|reflexivity].
     + exists regs. split; assumption.
   - destruct (read_count_u32s (le_val d5) r6) as [[cs rr]| |] eqn:Er; cbn [obind fst snd] in H; try discriminate.
     destruct (a4_read_aux _ cm lgk cs (aux_new lgk)) as [m| |] eqn:Ea; cbn [obind] in H; try discriminate.
-    inversion H; subst a.
+    inversion H; subst a. split; [|exact Hew].
     assert (Hc32 : forall c, In c cs -> c < 2 ^ 32).
-    { unfold read_count_u32s in Er. destruct (_ <? _); [discriminate|]. now apply (read_u32s_BOK _ _ _ _ HBr Er). }
+    { unfold read_count_u32s in Er. destruct (N.of_nat (length r6) <? 4 * le_val d5); [discriminate|]. now apply (read_u32s_BOK _ _ _ _ HBr Er). }
     destruct (a4_built_inv lgk _ cm num tokens cs (Some m) (est_of_image d1 d2 d3 ooo) Hlg W Hcm Es) as (regs & HI & Hb & _).
     + rewrite (read_count_length _ _ _ _ Er). assumption.
     + assumption.
@@ -517,18 +586,77 @@ Proof.
     + exists regs. split; assumption.
 Qed.
 
+Lemma valid_of_u32 : forall c, c < 2 ^ 32 -> get_value c <> 0 -> valid c.
+Proof.
+  intros c Hc Hv. rewrite get_value_div in Hv. unfold valid, cvalue, P26 in *. change (2 ^ 32) with 4294967296 in Hc. lia.
+Qed.
+
+(* the insertion loop of List::deserialize: the list holds the distinct non-empty coupons read *)
+Lemma list_insert_all_spec : forall vs l ds, ListInv l ds -> (length ds + length vs <= 8)%nat ->
+  forall l', list_insert_all vs l = Ok l' ->
+    exists ds', ListInv l' ds' /\ (forall c, In c ds' <-> In c ds \/ (In c vs /\ c <> 0)) /\
+                (forall c, In c vs -> c <> 0 -> get_value c <> 0).
+Proof.
+  induction vs as [|v r IH]; intros l ds HL Hlen l' H; cbn [list_insert_all] in H.
+  - inversion H; subst. exists ds. split; [assumption|]. split; [intros c; cbn [In]; tauto|intros c []].
+  - cbn [length] in Hlen. rewrite COUPON_EMPTY_0 in H. destruct (N.eqb_spec v 0) as [E|E].
+    + destruct (IH l ds HL ltac:(lia) l' H) as (ds' & HL' & Hin & Hval). exists ds'. split; [assumption|]. split.
+      * intros c. rewrite (Hin c). cbn [In]. split; [intros [?|[? ?]]; [now left|right; split; [now right|assumption]]|].
+        intros [?|[[?|?] ?]]; [now left|congruence|right; now split].
+      * intros c [<-|Hc] Hc0; [congruence|now apply Hval].
+    + destruct (N.eqb_spec (get_value v) 0) as [Ev|Ev]; [discriminate|].
+      destruct (in_dec N.eq_dec v ds) as [Hin|Hnin].
+      * rewrite (list_update_old l ds v HL Hin) in H.
+        destruct (IH l ds HL ltac:(lia) l' H) as (ds' & HL' & Hin' & Hval). exists ds'. split; [assumption|]. split.
+        -- intros c. rewrite (Hin' c). cbn [In]. split; [intros [?|[? ?]]; [now left|right; split; [now right|assumption]]|].
+           intros [?|[[<-|?] ?]]; [now left|now left|right; now split].
+        -- intros c [<-|Hc] Hc0; [assumption|now apply Hval].
+      * pose proof (list_update_new l ds v HL Hnin E ltac:(lia)) as HL1.
+        destruct (IH (list_update l v) (ds ++ [v]) HL1 ltac:(rewrite app_length; cbn [length]; lia) l' H) as (ds' & HL' & Hin' & Hval).
+        exists ds'. split; [assumption|]. split.
+        -- intros c. rewrite (Hin' c), in_app_iff. cbn [In]. split.
+           ++ intros [[?|[<-|[]]]|[? ?]]; [now left|right; split; [now left|assumption]|right; split; [now right|assumption]].
+           ++ intros [?|[[<-|?] ?]]; [left; now left|left; right; now left|right; now split].
+        -- intros c [<-|Hc] Hc0; [assumption|now apply Hval].
+Qed.
+
+(* an accepted list: the list invariant of C02 (8 slots, the coupons first, all distinct, counted),
+   fewer than 8 valid coupons -- so the next update is never dropped (defects D1 and 2f7e0d8) *)
+Lemma list_deserialize_ok : forall bs count empty compact l, BOK bs ->
+  list_deserialize bs LG_LIST_SIZE count empty compact = Ok l ->
+  exists ds, ListInv l ds /\ (length ds < 8)%nat /\ Forall valid ds.
+Proof.
+  intros bs count empty compact l HB H. unfold list_deserialize in H. change (2 ^ LG_LIST_SIZE) with 8 in H.
+  destruct (N.leb_spec 8 count) as [|Hc8]; [discriminate|].
+  destruct (negb empty && ((0 <? count) || _)).
+  - destruct (read_count_u32s _ bs) as [[vs r]| |] eqn:Er; cbn [obind fst] in H; try discriminate.
+    destruct (list_insert_all vs (list_new LG_LIST_SIZE)) as [l1| |] eqn:Ei; cbn [obind] in H; try discriminate.
+    destruct (N.eqb_spec (hl_len l1) count) as [El|]; cbn [negb] in H; [|discriminate]. inversion H; subst l1.
+    pose proof (read_count_length _ _ _ _ Er) as Hlen.
+    assert (Hv32 : forall c, In c vs -> c < 2 ^ 32).
+    { unfold read_count_u32s in Er. destruct (N.of_nat (length bs) <? _); [discriminate|]. now apply (read_u32s_BOK _ _ _ _ HB Er). }
+    destruct (list_insert_all_spec vs (list_new LG_LIST_SIZE) [] list_new_inv) with (l' := l) as (ds & HL & Hin & Hval); [|assumption|].
+    + cbn [length]. destruct compact; lia.
+    + exists ds. split; [assumption|]. pose proof HL as (_ & Hl & _). split; [lia|].
+      apply Forall_forall. intros c Hc. apply Hin in Hc. destruct Hc as [[]|[Hc Hc0]].
+      apply valid_of_u32; [now apply Hv32|now apply Hval].
+  - cbn [obind] in H. destruct (negb _); [discriminate|]. inversion H; subst l. exists []. split; [apply list_new_inv|].
+    split; [cbn; lia|constructor].
+Qed.
+
 (* what HllSketch::deserialize guarantees about a value it returns as Ok (real byte strings) *)
 Definition image_wf (s : hsketch) : Prop :=
   let lgk := sk_lgk s in
   4 <= lgk <= 21 /\
   match sk_mode s with
-  | MList l _ => hl_lg l = 3 /\ length (hl_coupons l) = 8%nat /\ hl_len l < 8
-  | MSet st _ => 8 <= lgk /\ 5 <= hs_lg st /\ hs_lg st <= lgk - 3 /\ (exists S, SetRep (hs_lg st) st S) /\
+  | MList l _ => exists ds, ListInv l ds /\ (length ds < 8)%nat /\ Forall valid ds
+  | MSet st _ => 8 <= lgk /\ 5 <= hs_lg st /\ hs_lg st <= lgk - 3 /\ (exists S, SetRep (hs_lg st) st S /\ Forall valid S) /\
                  4 * hs_len st <= 3 * 2 ^ hs_lg st
-  | MArr4 a => exists regs, Inv4 lgk regs a /\ (forall j, j < 2 ^ lgk -> regs j <= 63)
-  | MArr6 a => a6_lgk a = lgk
+  | MArr4 a => (exists regs, Inv4 lgk regs a /\ (forall j, j < 2 ^ lgk -> regs j <= 63)) /\ est_wf (a4_est a)
+  | MArr6 a => a6_lgk a = lgk /\ WFb (a6_bytes a) /\ a6_nz a = count_regs (2 ^ lgk) (fun j => a6_get a j =? 0) /\
+               est_wf (a6_est a)
   | MArr8 a => a8_lgk a = lgk /\ (forall j, a8_get a j <= 63) /\ (forall j, 2 ^ lgk <= j -> a8_get a j = 0) /\
-               a8_nz a = count_regs (2 ^ lgk) (fun j => a8_get a j =? 0)
+               a8_nz a = count_regs (2 ^ lgk) (fun j => a8_get a j =? 0) /\ est_wf (a8_est a)
   end.
 
 Theorem hll_deserialize_ok_wf : forall bs s, BOK bs -> hll_deserialize bs = Ok s -> image_wf s.
@@ -544,32 +672,75 @@ Proof.
   { destruct (negb (nth 0 bs 0 =? LIST_PREINTS)); [discriminate|].
     destruct (N.eqb_spec (nth 4 bs 0) LG_LIST_SIZE) as [E3|]; [|discriminate]. cbn [negb] in H.
     destruct (list_deserialize _ _ _ _ _) as [l| |] eqn:Edl; cbn [obind] in H; try discriminate. inversion H; subst s.
-    unfold image_wf. cbn [sk_lgk sk_mode]. split; [assumption|]. unfold list_deserialize in Edl. rewrite E3 in Edl.
-    change (2 ^ LG_LIST_SIZE) with 8 in Edl. destruct (N.leb_spec 8 (nth 6 bs 0)); [discriminate|].
-    destruct (_ && _).
-    - destruct (read_count_u32s _ _) as [[vs r]| |] eqn:Er; cbn [obind fst] in Edl; try discriminate. inversion Edl; subst l.
-      cbn [hl_lg hl_coupons hl_len]. split; [reflexivity|]. split; [|assumption].
-      rewrite app_length, repeat_length. pose proof (read_count_length _ _ _ _ Er) as Hl.
-      destruct (negb (N.land (nth 5 bs 0) COMPACT_FLAG =? 0)); lia.
-    - inversion Edl; subst l. cbn [hl_lg hl_coupons hl_len]. split; [reflexivity|]. split; [first [now rewrite repeat_length|reflexivity]|assumption]. }
+    unfold image_wf. cbn [sk_lgk sk_mode]. split; [assumption|]. rewrite E3 in Edl.
+    now apply (list_deserialize_ok _ _ _ _ _ HBr Edl). }
   destruct (N.land (nth 7 bs 0) 3 =? MODE_SET).
   { destruct (negb (nth 0 bs 0 =? SET_PREINTS)); [discriminate|]. destruct (N.ltb_spec (nth 3 bs 0) 8); [discriminate|].
     destruct ((nth 4 bs 0 <? LG_MIN_SET_SIZE) || (nth 3 bs 0 - 3 <? nth 4 bs 0)) eqn:Er; [discriminate|].
     destruct (set_deserialize _ _ _) as [st| |] eqn:Eds; cbn [obind] in H; try discriminate. inversion H; subst s.
-    destruct (proj2 (set_deserialize_spec _ _ _) st Eds) as (Hl & HS & Hload).
+    destruct (proj2 (set_deserialize_spec _ _ _) st Eds) as (Hl & (S & HS & Hnz & H32) & Hload).
     unfold image_wf. cbn [sk_lgk sk_mode]. split; [assumption|]. rewrite Hl. unfold LG_MIN_SET_SIZE in Er.
-    split; [assumption|]. split; [lia|]. split; [lia|]. split; assumption. }
+    split; [assumption|]. split; [lia|]. split; [lia|]. split; [|assumption]. exists S. split; [assumption|].
+    apply Forall_forall. intros c Hc. apply valid_of_u32; [now apply (H32 HBr)|now apply Hnz]. }
   destruct (N.land (nth 7 bs 0) 3 =? MODE_HLL); [|discriminate].
   destruct (negb (nth 0 bs 0 =? HLL_PREINTS)); [discriminate|].
   match type of H with context [match ?t with T4 => _ | T6 => _ | T8 => _ end] => destruct t end.
   - destruct (a4_deserialize _ _ _ _) as [a| |] eqn:Ea; cbn [obind] in H; try discriminate. inversion H; subst s.
     unfold image_wf. cbn [sk_lgk sk_mode]. split; [assumption|]. now apply (a4_deserialize_ok _ _ _ _ _ HBr Hlg Ea).
   - destruct (a6_deserialize _ _ _) as [a| |] eqn:Ea; cbn [obind] in H; try discriminate. inversion H; subst s.
-    unfold image_wf. cbn [sk_lgk sk_mode]. split; [assumption|]. unfold a6_deserialize in Ea.
-    destruct (read_hll_body _ _ _) as [[[[e n] data] rest]| |]; cbn [obind] in Ea; try discriminate. inversion Ea. reflexivity.
+    unfold image_wf. cbn [sk_lgk sk_mode]. split; [assumption|]. now apply (a6_deserialize_ok _ _ _ _ HBr Ea).
   - destruct (a8_deserialize _ _ _) as [a| |] eqn:Ea; cbn [obind] in H; try discriminate. inversion H; subst s.
     unfold image_wf. cbn [sk_lgk sk_mode]. split; [assumption|]. now apply (a8_deserialize_ok _ _ _ _ Ea).
 Qed.
+
+(* ---------- the bridge: an accepted canonical image is a well-formed source (SrcOK) ----------
+   "canonical": a set image holds at least 8 coupons (the crate and the reference implementations
+   leave list mode only then) and an Hll4 image has at least one register at cur_min (the writer
+   raises cur_min otherwise).  Non-canonical images are accepted too and are harmless in the crate,
+   but the invariants of C02 / C03 do not describe them. *)
+Definition image_canonical (s : hsketch) : Prop :=
+  match sk_mode s with MSet st _ => 8 <= hs_len st | MArr4 a => 0 < a4_num a | _ => True end.
+
+Lemma regs_canon_ok : forall lgk (f : N -> N), 4 <= lgk <= 21 -> (forall j, j < 2 ^ lgk -> f j <= 63) ->
+  let cs := canon 0 (map f (Nseq 0 (N.to_nat (2 ^ lgk)))) in
+  Forall valid cs /\ (forall j, j < 2 ^ lgk -> spec_regs lgk cs j = f j) /\ (forall j, 2 ^ lgk <= j -> spec_regs lgk cs j = 0).
+Proof.
+  intros lgk f Hlg H63 cs. split; [|split].
+  - apply canon_valid. apply Forall_forall. intros v Hv. apply in_map_iff in Hv. destruct Hv as (j & <- & Hj).
+    apply H63. now apply Nseq_range_In.
+  - intros j Hj. unfold cs. rewrite canon_regs_full by lia. replace (j <? 2 ^ lgk) with true by lia. reflexivity.
+  - intros j Hj. now apply spec_regs_out_of_range.
+Qed.
+
+Theorem wf_src_ok : forall s, image_wf s -> image_canonical s ->
+  exists cs, SrcOK (sk_lgk s) (tag_flag (sk_tag s)) cs s.
+Proof.
+  intros [lgk m] [Hlg Hm] Hcan. unfold image_canonical, sk_tag in *. cbn [sk_lgk sk_mode] in *. unfold SrcOK. cbn [sk_lgk sk_mode].
+  destruct m as [l t|st t|a|a|a]; cbn [tag_flag].
+  - destruct Hm as (ds & HL & Hlen & Hv). exists ds. split; [reflexivity|]. split; [assumption|]. split; [assumption|].
+    split; [reflexivity|]. exists ds. split; [assumption|]. split; [assumption|]. intros c; tauto.
+  - destruct Hm as (A & B & C & (S & HS & Hv) & D). exists S. split; [reflexivity|]. split; [assumption|]. split; [assumption|].
+    split; [reflexivity|]. split; [assumption|]. split; [assumption|]. split; [assumption|]. split; [assumption|]. split; assumption.
+  - destruct Hm as ((regs & HI & H63) & _). destruct (regs_canon_ok lgk regs Hlg H63) as (Hv & Hr & _).
+    eexists. split; [reflexivity|]. split; [assumption|]. split; [exact Hv|]. split; [reflexivity|]. split; [|assumption].
+    apply (inv4_ext hip lgk regs); [|assumption]. intros j Hj. symmetry. now apply Hr.
+  - destruct Hm as (Hk & W & Hz & _).
+    destruct (regs_canon_ok lgk (a6_get a) Hlg ltac:(intros j _; pose proof (a6_get_lt (a6_bytes a) j W); unfold a6_get; lia)) as (Hv & Hr & _).
+    eexists. split; [reflexivity|]. split; [assumption|]. split; [exact Hv|]. split; [reflexivity|]. split; [assumption|].
+    split; [assumption|]. split; [intros j Hj; symmetry; now apply Hr|].
+    rewrite Hz. unfold spec_zeros. apply count_regs_ext. intros j Hj. now rewrite Hr.
+  - destruct Hm as (Hk & H63 & Hout & Hz & _).
+    destruct (regs_canon_ok lgk (a8_get a) Hlg ltac:(intros j _; apply H63)) as (Hv & Hr & Ho).
+    eexists. split; [reflexivity|]. split; [assumption|]. split; [exact Hv|]. split; [reflexivity|]. split; [assumption|]. split.
+    + intros j. destruct (N.lt_ge_cases j (2 ^ lgk)) as [Hj|Hj]; [symmetry; now apply Hr|]. rewrite (Hout j Hj). symmetry. now apply Ho.
+    + rewrite Hz. unfold spec_zeros. apply count_regs_ext. intros j Hj. now rewrite Hr.
+Qed.
+
+(* the reader's Ok values that are canonical are well-formed sources: every theorem of C02 / C03 /
+   C11 / C17 stated over SrcOK (merging into a union, further updates, re-serialization) applies *)
+Theorem hll_deserialize_src_ok : forall bs s, BOK bs -> hll_deserialize bs = Ok s -> image_canonical s ->
+  exists cs, SrcOK (sk_lgk s) (tag_flag (sk_tag s)) cs s.
+Proof. intros bs s HB H Hc. apply wf_src_ok; [now apply (hll_deserialize_ok_wf bs)|assumption]. Qed.
 
 (* ================= C11: serialize then deserialize ================= *)
 Lemma take_app : forall a b, take (length a) (a ++ b) = Ok (a, b).
@@ -630,10 +801,35 @@ Lemma arr_bytes_BOK : forall a n, WFb a -> BOK (arr_bytes a n).
 Proof. intros a n W. unfold BOK, arr_bytes. apply Forall_forall. intros b Hb. apply in_map_iff in Hb. destruct Hb as (j & <- & _). apply W. Qed.
 
 (* ---------- list mode: the copy is IDENTICAL (8 slots, same coupons in the same order: D1) ---------- *)
-Lemma list_roundtrip : forall lgk t (l : hlist) ds, 4 <= lgk <= 21 -> ListInv l ds -> hl_lg l = 3 -> (length ds < 8)%nat ->
+Lemma list_inv_eq : forall l l' ds, ListInv l ds -> ListInv l' ds -> l' = l.
+Proof.
+  intros [lg cps len] [lg' cps' len'] ds (A & B & _ & _ & _ & C) (A' & B' & _ & _ & _ & C').
+  cbn [hl_lg hl_coupons hl_len] in *. congruence.
+Qed.
+
+(* List::deserialize's insertion loop on distinct valid coupons appends them *)
+Lemma list_insert_all_fresh : forall vs l ds, ListInv l ds -> NoDup (ds ++ vs) -> Forall valid vs -> (length ds + length vs <= 8)%nat ->
+  exists l', list_insert_all vs l = Ok l' /\ ListInv l' (ds ++ vs).
+Proof.
+  induction vs as [|v r IH]; intros l ds HL Hnd Hv Hlen; cbn [list_insert_all].
+  - exists l. split; [reflexivity|]. now rewrite app_nil_r.
+  - inversion Hv as [|? ? Hvv Hvr]; subst. rewrite COUPON_EMPTY_0. pose proof (valid_nonzero v Hvv) as Hv0.
+    replace (v =? 0) with false by lia. rewrite get_value_div. replace (cvalue v =? 0) with false by (destruct Hvv; lia).
+    cbn [length] in Hlen.
+    assert (Hnin : ~ In v ds).
+    { intros Hin. apply NoDup_remove_2 in Hnd. apply Hnd. apply in_or_app. now left. }
+    pose proof (list_update_new l ds v HL Hnin Hv0 ltac:(lia)) as HL1.
+    destruct (IH (list_update l v) (ds ++ [v]) HL1) as (l' & Hr & HL').
+    + now rewrite <- app_assoc.
+    + assumption.
+    + rewrite app_length. cbn [length]. lia.
+    + exists l'. split; [assumption|]. rewrite <- app_assoc in HL'. exact HL'.
+Qed.
+
+Lemma list_roundtrip : forall lgk t (l : hlist) ds, 4 <= lgk <= 21 -> ListInv l ds -> (length ds < 8)%nat ->
   Forall valid ds -> hll_deserialize (list_serialize l lgk t) = Ok (mkSketch lgk (MList l t)).
 Proof.
-  intros lgk t l ds Hlg HL Hl3 Hlen Hv. pose proof HL as (Hc & Hl & Hnd & H0 & _).
+  intros lgk t l ds Hlg HL Hlen Hv. pose proof HL as (Hc & Hl & Hnd & H0 & _ & Hl3).
   destruct (mode_byte_fields MODE_LIST t ltac:(vm_compute; reflexivity)) as (Hm1 & Hm2 & Hm3).
   unfold list_serialize. rewrite Hl3, Hc, (filter_nonzero_app_zeros ds _ H0), Hl, Nat2N.id, firstn_all.
   replace (3 mod 256) with 3 by reflexivity. replace (N.of_nat (length ds) mod 256) with (N.of_nat (length ds)) by (symmetry; apply N.mod_small; lia).
@@ -645,22 +841,26 @@ Proof.
   destruct ds as [|d ds'].
   - cbn [length N.of_nat N.eqb]. change (0 =? 0) with true. cbv iota.
     replace (negb (negb (N.land (N.lor EMPTY_FLAG COMPACT_FLAG) EMPTY_FLAG =? 0))) with false by reflexivity. cbn [andb obind].
-    destruct l as [lg cps len]. cbn [hl_lg hl_coupons hl_len] in *. subst. reflexivity.
+    change (hl_len (list_new 3)) with 0. change (0 =? 0) with true. cbn [negb].
+    rewrite (list_inv_eq l (list_new 3) [] HL list_new_inv). reflexivity.
   - set (dss := d :: ds') in *. replace (N.of_nat (length dss) =? 0) with false by (unfold dss; cbn [length]; lia).
     replace (negb (negb (N.land (N.lor 0 COMPACT_FLAG) EMPTY_FLAG =? 0))) with true by reflexivity.
     replace (negb (N.land (N.lor 0 COMPACT_FLAG) COMPACT_FLAG =? 0)) with true by reflexivity.
-    replace (0 <? N.of_nat (length dss)) with true by (unfold dss; cbn [length]; lia). cbn [andb].
+    replace (0 <? N.of_nat (length dss)) with true by (unfold dss; cbn [length]; lia). cbn [andb orb].
     rewrite <- (app_nil_r (u32s dss)). rewrite read_count_u32s_u32s by (intros c Hc'; apply valid_lt32; rewrite Forall_forall in Hv; now apply Hv).
-    cbn [obind fst]. replace (N.to_nat (8 - N.of_nat (length dss))) with (8 - length dss)%nat by lia.
-    destruct l as [lg cps len]. cbn [hl_lg hl_coupons hl_len] in *. subst lg cps len. reflexivity.
+    cbn [obind fst].
+    destruct (list_insert_all_fresh dss (list_new 3) [] list_new_inv Hnd Hv ltac:(cbn [length]; lia)) as (l' & Hr & HL').
+    cbn [app] in HL'. rewrite Hr. cbn [obind]. pose proof HL' as (_ & Hl' & _). rewrite Hl', N.eqb_refl. cbn [negb].
+    rewrite (list_inv_eq l l' dss HL HL'). reflexivity.
 Qed.
 
 (* ---------- set mode: same lg size, same coupon set, same count (the table is rebuilt) ---------- *)
-Lemma set_insert_all_nonzero : forall compact vs st, (forall c, In c vs -> c <> 0) ->
+Lemma set_insert_all_nonzero : forall compact vs st, (forall c, In c vs -> c <> 0 /\ get_value c <> 0) ->
   set_insert_all compact vs st = set_update_all vs st.
 Proof.
   intros compact. induction vs as [|v r IH]; intros st H; cbn [set_insert_all set_update_all]; [reflexivity|].
-  rewrite COUPON_EMPTY_0. replace (v =? 0) with false by (specialize (H v (or_introl eq_refl)); lia).
+  rewrite COUPON_EMPTY_0. destruct (H v (or_introl eq_refl)) as [Hv0 Hvv]. replace (v =? 0) with false by lia.
+  replace (get_value v =? 0) with false by lia.
   destruct (set_update st v); cbn [obind]; [apply IH; intros c Hc; apply H; now right|reflexivity|reflexivity].
 Qed.
 
@@ -694,11 +894,12 @@ Proof.
   replace (read_count_u32s (hs_len st) (u32s sorted)) with (read_count_u32s (N.of_nat (length sorted)) (u32s sorted ++ []))
     by (now rewrite app_nil_r, <- Hcard).
   rewrite read_count_u32s_u32s by (intros c Hc; apply valid_lt32; now apply Hvs). cbn [obind fst].
-  rewrite set_insert_all_nonzero by (intros c Hc; apply valid_nonzero; now apply Hvs).
+  rewrite set_insert_all_nonzero by (intros c Hc; split; [apply valid_nonzero; now apply Hvs|rewrite get_value_div; destruct (Hvs c Hc); lia]).
   destruct (set_update_all_fresh lg sorted (set_new lg) [] (set_new_rep lg) Hnd) as (st' & Hall & HR' & Hl').
   - intros c Hc. split; [apply valid_nonzero; now apply Hvs|tauto].
   - unfold set_new. cbn [hs_len]. lia.
   - rewrite Hall. cbn [obind]. unfold set_new in Hl'. cbn [hs_len] in Hl'.
+    replace (hs_len st' =? hs_len st) with true by lia. cbn [negb].
     replace (3 * 2 ^ lg <? 4 * hs_len st') with false by lia.
     exists st'. split; [reflexivity|]. destruct HR' as (Hlg' & HI' & Hlen' & Hent'). split; [assumption|]. split; [lia|].
     split; [assumption|]. split; [assumption|]. split; [assumption|].
@@ -710,36 +911,44 @@ Lemma ooo_flag_bit : forall b : bool,
   negb (N.land (N.lor COMPACT_FLAG (if b then OOO_FLAG else 0)) OOO_FLAG =? 0) = b.
 Proof. destruct b; reflexivity. Qed.
 
+(* the estimator read back: each field is the 8-byte pattern decoded again, and an out-of-order
+   image gets a zero HIP accumulator (set_out_of_order(true) of the reader).  The bit-cast identity
+   float_of_bits (bits_of_float f) = f is NOT proved here; it is tied by the correspondence run. *)
+Definition est_reread (e : hip) : hip :=
+  est_of_image (f64b (h_accum e)) (f64b (h_kxq0 e)) (f64b (h_kxq1 e)) (h_ooo e).
+
+(* the reader's check_image_field on what the writer wrote: hip_accum, kxq0, kxq1 finite and >= 0
+   (true of every estimator the crate builds -- sums of non-negative terms -- but that needs an
+   analysis of binary64 sums which is not done here: it is a HYPOTHESIS of the round-trip theorems) *)
+Definition est_fields_ok (e : hip) : Prop :=
+  image_fields_ok (f64b (h_accum e)) (f64b (h_kxq0 e)) (f64b (h_kxq1 e)) = true.
+
+Lemma est_reread_ooo : forall e, h_ooo (est_reread e) = h_ooo e.
+Proof. intros e. unfold est_reread, est_of_image, hip_set_ooo. reflexivity. Qed.
+
 (* reading back the preamble of an array image *)
 Lemma read_hll_body_image : forall (e : hip) num auxc data tail nbytes,
-  length data = N.to_nat nbytes ->
+  length data = N.to_nat nbytes -> est_fields_ok e ->
   read_hll_body (f64b (h_accum e) ++ f64b (h_kxq0 e) ++ f64b (h_kxq1 e) ++ le_bytes 4 num ++ le_bytes 4 auxc ++ data ++ tail)
                 nbytes (h_ooo e)
-  = Ok (est_of_image (f64b (h_accum e)) (f64b (h_kxq0 e)) (f64b (h_kxq1 e)) (h_ooo e), le_val (le_bytes 4 auxc), data, tail).
+  = Ok (est_reread e, le_val (le_bytes 4 auxc), data, tail).
 Proof.
-  intros e num auxc data tail nbytes Hlen. unfold read_hll_body.
+  intros e num auxc data tail nbytes Hlen Hok. unfold read_hll_body.
   rewrite (take_app_n 8 _ _ (f64b_length _)). cbn [obind fst snd].
   rewrite (take_app_n 8 _ _ (f64b_length _)). cbn [obind fst snd].
   rewrite (take_app_n 8 _ _ (f64b_length _)). cbn [obind fst snd].
+  unfold est_fields_ok in Hok. rewrite Hok. cbn [negb].
   rewrite (take_app_n 4 _ _ (le_bytes_length 4 _)). cbn [obind fst snd].
   rewrite (take_app_n 4 _ _ (le_bytes_length 4 _)). cbn [obind fst snd].
   rewrite (take_app_n _ _ _ Hlen). cbn [obind fst snd]. reflexivity.
 Qed.
 
 Lemma read_hll_body_image0 : forall (e : hip) num auxc data nbytes,
-  length data = N.to_nat nbytes ->
+  length data = N.to_nat nbytes -> est_fields_ok e ->
   read_hll_body (f64b (h_accum e) ++ f64b (h_kxq0 e) ++ f64b (h_kxq1 e) ++ le_bytes 4 num ++ le_bytes 4 auxc ++ data)
                 nbytes (h_ooo e)
-  = Ok (est_of_image (f64b (h_accum e)) (f64b (h_kxq0 e)) (f64b (h_kxq1 e)) (h_ooo e), le_val (le_bytes 4 auxc), data, []).
-Proof. intros e num auxc data nbytes Hlen. pose proof (read_hll_body_image e num auxc data [] nbytes Hlen) as H. rewrite app_nil_r in H. exact H. Qed.
-
-(* the estimator read back: each field is the 8-byte pattern decoded again (the bit-cast identity
-   float_of_bits (bits_of_float f) = f is NOT proved here; it is tied by the correspondence run) *)
-Definition est_reread (e : hip) : hip :=
-  est_of_image (f64b (h_accum e)) (f64b (h_kxq0 e)) (f64b (h_kxq1 e)) (h_ooo e).
-
-Lemma est_reread_ooo : forall e, h_ooo (est_reread e) = h_ooo e.
-Proof. intros e. unfold est_reread, est_of_image, hip_set_ooo. reflexivity. Qed.
+  = Ok (est_reread e, le_val (le_bytes 4 auxc), data, []).
+Proof. intros e num auxc data nbytes Hlen Hok. pose proof (read_hll_body_image e num auxc data [] nbytes Hlen Hok) as H. rewrite app_nil_r in H. exact H. Qed.
 
 Lemma hll_deserialize_hll_header : forall lgk cm t (e : hip) rest, 4 <= lgk <= 21 ->
   hll_deserialize (hll_header lgk cm t e ++ rest) =
@@ -762,13 +971,14 @@ Proof.
 Qed.
 
 Lemma a8_roundtrip : forall lgk (a : arr8 hip), 4 <= lgk <= 21 -> a8_lgk a = lgk -> (forall j, j < 2 ^ lgk -> a8_get a j <= 63) ->
+  est_fields_ok (a8_est a) ->
   exists a', hll_deserialize (a8_serialize a lgk) = Ok (mkSketch lgk (MArr8 a')) /\
     a8_lgk a' = lgk /\ (forall j, j < 2 ^ lgk -> a8_get a' j = a8_get a j) /\ (forall j, 2 ^ lgk <= j -> a8_get a' j = 0) /\
     a8_nz a' = count_regs (2 ^ lgk) (fun j => a8_get a j =? 0) /\ a8_est a' = est_reread (a8_est a).
 Proof.
-  intros lgk a Hlg Hk H63. unfold a8_serialize. rewrite <- ?app_assoc. rewrite hll_deserialize_hll_header by assumption.
+  intros lgk a Hlg Hk H63 Hef. unfold a8_serialize. rewrite <- ?app_assoc. rewrite hll_deserialize_hll_header by assumption.
   rewrite Hk. unfold a8_deserialize.
-  rewrite (read_hll_body_image0 (a8_est a) (a8_nz a) 0 _ (2 ^ lgk)) by apply arr_bytes_length. cbn [obind].
+  rewrite (read_hll_body_image0 (a8_est a) (a8_nz a) 0 _ (2 ^ lgk)) by (apply arr_bytes_length || assumption). cbn [obind].
   assert (Hex : existsb (fun v => MAX_VALUE <? v) (arr_bytes (a8_bytes a) (2 ^ lgk)) = false).
   { destruct (existsb _ _) eqn:E; [|reflexivity]. apply existsb_exists in E. destruct E as (v & Hv & Hgt).
     unfold arr_bytes in Hv. apply in_map_iff in Hv. destruct Hv as (j & <- & Hj). apply Nseq_range_In in Hj.
@@ -786,15 +996,15 @@ Proof.
   destruct H16 as (q & Hq). rewrite Hq in *. lia.
 Qed.
 
-Lemma a6_roundtrip : forall lgk (a : arr6 hip), 4 <= lgk <= 21 -> a6_lgk a = lgk ->
+Lemma a6_roundtrip : forall lgk (a : arr6 hip), 4 <= lgk <= 21 -> a6_lgk a = lgk -> est_fields_ok (a6_est a) ->
   exists a', hll_deserialize (a6_serialize a lgk) = Ok (mkSketch lgk (MArr6 a')) /\
     a6_lgk a' = lgk /\ (forall j, j < 2 ^ lgk -> a6_get a' j = a6_get a j) /\
     a6_nz a' = count_regs (2 ^ lgk) (fun j => a6_get a j =? 0) /\ a6_est a' = est_reread (a6_est a) /\
     (WFb (a6_bytes a) -> WFb (a6_bytes a')).
 Proof.
-  intros lgk a Hlg Hk. unfold a6_serialize. rewrite <- ?app_assoc. rewrite hll_deserialize_hll_header by assumption.
+  intros lgk a Hlg Hk Hef. unfold a6_serialize. rewrite <- ?app_assoc. rewrite hll_deserialize_hll_header by assumption.
   rewrite Hk. unfold a6_deserialize.
-  rewrite (read_hll_body_image0 (a6_est a) (a6_nz a) 0 _ (a6_num_bytes lgk)) by apply arr_bytes_length. cbn [obind].
+  rewrite (read_hll_body_image0 (a6_est a) (a6_nz a) 0 _ (a6_num_bytes lgk)) by (apply arr_bytes_length || assumption). cbn [obind].
   set (bytes' := arr_of_list 0 (arr_bytes (a6_bytes a) (a6_num_bytes lgk)) aempty).
   assert (Hget : forall j, j < 2 ^ lgk -> a6_get_raw bytes' j = a6_get_raw (a6_bytes a) j).
   { intros j Hj. pose proof (a6_slot_bytes lgk j ltac:(lia) Hj) as Hb. unfold a6_get_raw, bytes'.
@@ -851,10 +1061,11 @@ Qed.
 (* Hll4: the copy satisfies the Array4 invariant for the SAME register file (same nibbles, same
    exceptions as a map, same cur_min and num_at_cur_min) *)
 Lemma a4_roundtrip : forall lgk regs (a : arr4 hip), 4 <= lgk <= 21 -> Inv4 lgk regs a -> (forall j, j < 2 ^ lgk -> regs j <= 63) ->
+  est_fields_ok (a4_est a) ->
   exists a', hll_deserialize (a4_serialize a lgk) = Ok (mkSketch lgk (MArr4 a')) /\
     Inv4 lgk regs a' /\ a4_cur_min a' = a4_cur_min a /\ a4_num a' = a4_num a /\ a4_est a' = est_reread (a4_est a).
 Proof.
-  intros lgk regs a Hlg HI Hb. pose proof HI as (Hk & HC & Hn). pose proof HC as (W & HA & Hr & Hd).
+  intros lgk regs a Hlg HI Hb Hef. pose proof HI as (Hk & HC & Hn). pose proof HC as (W & HA & Hr & Hd).
   set (k := 2 ^ lgk) in *. set (cm := a4_cur_min a) in *.
   set (ps := match a4_aux a with Some m => aux_pairs m | None => [] end).
   set (cs := map (fun p => pack_coupon (fst p) (snd p)) ps).
@@ -898,6 +1109,7 @@ Proof.
   rewrite (take_app_n 8 _ _ (f64b_length _)). cbn [obind fst snd].
   rewrite (take_app_n 8 _ _ (f64b_length _)). cbn [obind fst snd].
   rewrite (take_app_n 8 _ _ (f64b_length _)). cbn [obind fst snd].
+  unfold est_fields_ok in Hef. rewrite Hef. cbn [negb].
   rewrite (take_app_n 4 _ _ (le_bytes_length 4 _)). cbn [obind fst snd].
   rewrite (take_app_n 4 _ _ (le_bytes_length 4 _)). cbn [obind fst snd].
   fold cm. unfold MAX_VALUE. replace (63 <? cm) with false by lia.
@@ -964,38 +1176,43 @@ Definition rt_ok (lgk : N) (cs : list N) (s s' : hsketch) : Prop :=
   | MSet st t, MSet st' t' => t' = t /\ hs_lg st' = hs_lg st /\ hs_len st' = hs_len st /\ SetRep (hs_lg st) st' cs
   | MArr4 a, MArr4 a' => Inv4 lgk (spec_regs lgk cs) a' /\ a4_cur_min a' = a4_cur_min a /\ a4_num a' = a4_num a /\
                          a4_est a' = est_reread (a4_est a)
-  | MArr6 a, MArr6 a' => a6_lgk a' = lgk /\ (forall j, j < 2 ^ lgk -> a6_get a' j = spec_regs lgk cs j) /\
+  | MArr6 a, MArr6 a' => a6_lgk a' = lgk /\ WFb (a6_bytes a') /\ (forall j, j < 2 ^ lgk -> a6_get a' j = spec_regs lgk cs j) /\
                          a6_nz a' = spec_zeros lgk cs /\ a6_est a' = est_reread (a6_est a)
   | MArr8 a, MArr8 a' => a8_lgk a' = lgk /\ (forall j, a8_get a' j = spec_regs lgk cs j) /\
                          a8_nz a' = spec_zeros lgk cs /\ a8_est a' = est_reread (a8_est a)
   | _, _ => False
   end.
 
-Definition list_lg_ok (s : hsketch) : Prop := match sk_mode s with MList l _ => hl_lg l = 3 | _ => True end.
+(* the estimator fields pass the reader's check (see est_fields_ok: a hypothesis) *)
+Definition est_ok (s : hsketch) : Prop :=
+  match sk_mode s with
+  | MArr4 a => est_fields_ok (a4_est a) | MArr6 a => est_fields_ok (a6_est a) | MArr8 a => est_fields_ok (a8_est a)
+  | _ => True
+  end.
 
-Theorem hll_roundtrip : forall lgk arrf cs s, SrcOK lgk arrf cs s -> list_lg_ok s ->
+Theorem hll_roundtrip : forall lgk arrf cs s, SrcOK lgk arrf cs s -> est_ok s ->
   exists s', hll_deserialize (hll_serialize s) = Ok s' /\ rt_ok lgk cs s s'.
 Proof.
-  intros lgk arrf cs s HS Hl3. pose proof HS as (Hk & Hlg & Hv & Hm). unfold hll_serialize, rt_ok, list_lg_ok in *.
+  intros lgk arrf cs s HS Hef. pose proof HS as (Hk & Hlg & Hv & Hm). unfold hll_serialize, rt_ok, est_ok in *.
   rewrite Hk. destruct (sk_mode s) as [l t|st t|a|a|a] eqn:Em.
   - destruct Hm as (_ & ds & HL & Hlen & Hss).
-    rewrite (list_roundtrip lgk t l ds Hlg HL Hl3 Hlen (forall_valid_set ds cs Hss Hv)).
+    rewrite (list_roundtrip lgk t l ds Hlg HL Hlen (forall_valid_set ds cs Hss Hv)).
     eexists. split; [reflexivity|]. cbn [sk_lgk sk_mode]. repeat split; reflexivity.
   - destruct Hm as (_ & H8 & H5 & H3 & HR & _ & Hload).
     destruct (set_roundtrip lgk t st cs ltac:(lia) H5 H3 HR Hv Hload) as (st' & Hd & A & B & C).
     rewrite Hd. eexists. split; [reflexivity|]. cbn [sk_lgk sk_mode]. split; [reflexivity|]. split; [reflexivity|].
     split; [assumption|]. split; assumption.
   - destruct Hm as (_ & HI & _).
-    destruct (a4_roundtrip lgk _ a Hlg HI ltac:(intros j _; now apply spec_regs_bound)) as (a' & Hd & A & B & C & D).
+    destruct (a4_roundtrip lgk _ a Hlg HI ltac:(intros j _; now apply spec_regs_bound) Hef) as (a' & Hd & A & B & C & D).
     rewrite Hd. eexists. split; [reflexivity|]. cbn [sk_lgk sk_mode]. split; [reflexivity|]. split; [assumption|].
     split; [assumption|]. split; assumption.
-  - destruct Hm as (_ & Hk6 & Hr & Hz).
-    destruct (a6_roundtrip lgk a Hlg Hk6) as (a' & Hd & A & B & C & D & _).
+  - destruct Hm as (_ & Hk6 & W & Hr & Hz).
+    destruct (a6_roundtrip lgk a Hlg Hk6 Hef) as (a' & Hd & A & B & C & D & W').
     rewrite Hd. eexists. split; [reflexivity|]. cbn [sk_lgk sk_mode]. split; [reflexivity|]. split; [assumption|].
-    split; [intros j Hj; now rewrite (B j Hj)|]. split; [|assumption].
-    rewrite C. unfold spec_zeros. apply count_regs_ext. intros j _. now rewrite Hr.
+    split; [now apply W'|]. split; [intros j Hj; rewrite (B j Hj); now apply Hr|]. split; [|assumption].
+    rewrite C. unfold spec_zeros. apply count_regs_ext. intros j Hj. now rewrite Hr.
   - destruct Hm as (_ & Hk8 & Hr & Hz).
-    destruct (a8_roundtrip lgk a Hlg Hk8 ltac:(intros j _; rewrite Hr; now apply spec_regs_bound)) as (a' & Hd & A & B & C & D & F).
+    destruct (a8_roundtrip lgk a Hlg Hk8 ltac:(intros j _; rewrite Hr; now apply spec_regs_bound) Hef) as (a' & Hd & A & B & C & D & F).
     rewrite Hd. eexists. split; [reflexivity|]. cbn [sk_lgk sk_mode]. split; [reflexivity|]. split; [assumption|].
     split; [|split; [|assumption]].
     + intros j. destruct (N.lt_ge_cases j (2 ^ lgk)) as [Hj|Hj]; [now rewrite (B j Hj)|].
@@ -1003,68 +1220,95 @@ Proof.
     + rewrite D. unfold spec_zeros. apply count_regs_ext. intros j _. now rewrite Hr.
 Qed.
 
-(* sketches built by updates keep the list at lg size 3 *)
-Lemma upd_list_lg : forall (s s' : hsketch) c, list_lg_ok s ->
-  update_with_coupon hip_new hip_update hip_carry s c = Ok s' -> list_lg_ok s'.
-Proof.
-  intros s s' c H Hu. unfold update_with_coupon, list_lg_ok in *.
-  destruct (sk_mode s) as [l t|st t|a|a|a].
-  - destruct (list_is_full (list_update l c)).
-    + destruct (sk_lgk s <? LIST_TO_ARRAY_BELOW).
-      * unfold promote_to_array in Hu. destruct t.
-        -- destruct (a4_update_all _ _ _); cbn [obind] in Hu; inversion Hu; exact I.
-        -- cbn [obind] in Hu. inversion Hu. exact I.
-        -- cbn [obind] in Hu. inversion Hu. exact I.
-      * unfold promote_to_set in Hu. destruct (set_update_all _ _); cbn [obind] in Hu; inversion Hu; exact I.
-    + inversion Hu. cbn [sk_mode]. unfold list_update. destruct (list_scan (hl_coupons l) c). cbn [hl_lg]. assumption.
-  - destruct (set_update st c) as [st'| |]; cbn [obind] in Hu; try discriminate.
-    destruct (_ <? _).
-    + destruct (hs_lg st' =? _).
-      * unfold promote_to_array in Hu. destruct t.
-        -- destruct (a4_update_all _ _ _); cbn [obind] in Hu; inversion Hu; exact I.
-        -- cbn [obind] in Hu. inversion Hu. exact I.
-        -- cbn [obind] in Hu. inversion Hu. exact I.
-      * unfold grow_set in Hu. destruct (set_update_all _ _); cbn [obind] in Hu; inversion Hu; exact I.
-    + inversion Hu. exact I.
-  - destruct (a4_update hip_update a c); cbn [obind] in Hu; inversion Hu; exact I.
-  - inversion Hu. exact I.
-  - inversion Hu. exact I.
-Qed.
-
-Lemma run_list_lg : forall cs (s s' : hsketch), list_lg_ok s -> update_all hip_new hip_update hip_carry cs s = Ok s' -> list_lg_ok s'.
-Proof.
-  induction cs as [|c r IH]; intros s s' H Hu; cbn [update_all] in Hu; [inversion Hu; subst; assumption|].
-  destruct (update_with_coupon hip_new hip_update hip_carry s c) as [s1| |] eqn:E; cbn [obind] in Hu; try discriminate.
-  apply (IH s1 s' (upd_list_lg s s1 c H E) Hu).
-Qed.
-
 (* for every stream: the sketch survives serialize / deserialize *)
 Theorem hll_roundtrip_of_stream : forall lgk t cs, 4 <= lgk <= 21 -> Forall valid cs ->
-  exists s s', run_stream hip_new hip_update hip_carry lgk t cs = Ok s /\
-    hll_deserialize (hll_serialize s) = Ok s' /\ rt_ok lgk cs s s'.
+  exists s, run_stream hip_new hip_update hip_carry lgk t cs = Ok s /\
+    (est_ok s -> exists s', hll_deserialize (hll_serialize s) = Ok s' /\ rt_ok lgk cs s s').
 Proof.
   intros lgk t cs Hlg Hv. destruct (stream_is_source lgk t cs Hlg Hv) as (s & Hr & HS).
-  assert (Hl : list_lg_ok s).
-  { unfold run_stream, sketch_new in Hr. destruct ((4 <=? lgk) && (lgk <=? 21)); cbn [obind] in Hr; [|discriminate].
-    apply (run_list_lg cs (mkSketch lgk (MList (list_new LG_INIT_LIST_SIZE) t)) s); [reflexivity|assumption]. }
-  destruct (hll_roundtrip lgk _ cs s HS Hl) as (s' & Hd & Hrt). exists s, s'. split; [assumption|]. split; assumption.
+  exists s. split; [assumption|]. intros Hef. apply (hll_roundtrip lgk _ cs s HS Hef).
 Qed.
 
 (* the copy is again a well-formed representation of the same abstract state, so everything C02 and
    C03 prove about further updates and merges applies to it as it does to the original *)
-Lemma rt_src_ok : forall lgk arrf cs s s', SrcOK lgk arrf cs s -> rt_ok lgk cs s s' ->
-  (forall a, sk_mode s <> MArr6 a) -> SrcOK lgk arrf cs s'.
+Lemma rt_src_ok : forall lgk arrf cs s s', SrcOK lgk arrf cs s -> rt_ok lgk cs s s' -> SrcOK lgk arrf cs s'.
 Proof.
-  intros lgk arrf cs s s' (Hk & Hlg & Hv & Hm) (Hk' & Hrt) Hn6. unfold SrcOK. split; [assumption|]. split; [assumption|].
+  intros lgk arrf cs s s' (Hk & Hlg & Hv & Hm) (Hk' & Hrt). unfold SrcOK. split; [assumption|]. split; [assumption|].
   split; [assumption|]. destruct (sk_mode s) as [l t|st t|a|a|a] eqn:Em; destruct (sk_mode s') as [l' t'|st' t'|a'|a'|a'] eqn:Em';
     try contradiction.
   - destruct Hrt as [-> ->]. assumption.
   - destruct Hrt as (-> & Hl & Hn & HR). destruct Hm as (E & A & B & C & D & F & G). rewrite Hl, Hn.
     split; [assumption|]. split; [assumption|]. split; [assumption|]. split; [assumption|]. split; [assumption|]. split; assumption.
   - destruct Hrt as (HI & _ & Hn & _). destruct Hm as (E & _ & Hpos). split; [assumption|]. split; [assumption|]. now rewrite Hn.
-  - exfalso. now apply (Hn6 a).
+  - destruct Hrt as (A & W & B & C & _). destruct Hm as (E & _). split; [assumption|]. split; [assumption|]. split; [assumption|]. split; assumption.
   - destruct Hrt as (A & B & C & _). destruct Hm as (E & _). split; [assumption|]. split; [assumption|]. split; assumption.
 Qed.
+
+(* "the copy behaves identically under further updates": the original and the deserialized copy,
+   fed the same further coupons, keep the same lg_k, mode, coupon set / register file and count
+   (the estimator state is not compared here: see est_reread) *)
+Theorem copy_same_under_updates : forall lgk arrf cs s us, SrcOK lgk arrf cs s -> est_ok s -> Forall valid us ->
+  exists s' r r', hll_deserialize (hll_serialize s) = Ok s' /\
+    update_all hip_new hip_update hip_carry us s = Ok r /\ update_all hip_new hip_update hip_carry us s' = Ok r' /\
+    sk_lgk r = sk_lgk r' /\ sk_tag r = sk_tag r' /\ sk_len r = sk_len r' /\
+    (forall c, In c (sk_coupons r) <-> In c (sk_coupons r')) /\
+    (forall j, j < 2 ^ lgk -> sk_reg r j = sk_reg r' j).
+Proof.
+  intros lgk arrf cs s us HS Hef Hus. destruct (hll_roundtrip lgk arrf cs s HS Hef) as (s' & Hd & Hrt).
+  pose proof (rt_src_ok lgk arrf cs s s' HS Hrt) as HS'.
+  destruct (src_updates_agree lgk arrf cs s s' us HS HS' Hus) as (r & r' & A & B & C).
+  exists s', r, r'. split; [assumption|]. split; [assumption|]. split; assumption.
+Qed.
+
+(* ---------- a concrete instance: est_ok holds, the image is accepted and re-serializes identically ---------- *)
+Definition est_okb (s : hsketch) : bool :=
+  match sk_mode s with
+  | MArr4 a => image_fields_ok (f64b (h_accum (a4_est a))) (f64b (h_kxq0 (a4_est a))) (f64b (h_kxq1 (a4_est a)))
+  | MArr6 a => image_fields_ok (f64b (h_accum (a6_est a))) (f64b (h_kxq0 (a6_est a))) (f64b (h_kxq1 (a6_est a)))
+  | MArr8 a => image_fields_ok (f64b (h_accum (a8_est a))) (f64b (h_kxq0 (a8_est a))) (f64b (h_kxq1 (a8_est a)))
+  | _ => true
+  end.
+Lemma est_okb_ok : forall s, est_okb s = true -> est_ok s.
+Proof. intros s. unfold est_okb, est_ok, est_fields_ok. destruct (sk_mode s); auto. Qed.
+
+Definition obool {A} (x : outcome A) (f : A -> bool) : bool := match x with Ok a => f a | _ => false end.
+Lemma obool_true : forall {A} (x : outcome A) f, obool x f = true -> exists a, x = Ok a /\ f a = true.
+Proof. intros A [a| |] f H; cbn [obool] in H; try discriminate. now exists a. Qed.
+
+Lemma Nlist_eqb_eq : forall a b : list N, list_eqb N.eqb a b = true -> a = b.
+Proof.
+  induction a as [|x a IH]; intros [|y b] H; cbn [list_eqb] in H; try discriminate; [reflexivity|].
+  apply andb_prop in H. destruct H as [H1 H2]. apply N.eqb_eq in H1. subst. f_equal. now apply IH.
+Qed.
+
+Definition rt_example_check (lgk : N) (t : tgt) : bool :=
+  obool (run_stream hip_new hip_update hip_carry lgk t HllC02.ex_stream2) (fun s =>
+    est_okb s && match sk_tag s with TagArray => true | _ => false end &&
+    obool (hll_deserialize (hll_serialize s)) (fun s' => list_eqb N.eqb (hll_serialize s') (hll_serialize s))).
+
+Lemma rt_example_computed : rt_example_check 8 T4 = true /\ rt_example_check 8 T6 = true /\ rt_example_check 9 T8 = true.
+Proof. vm_compute. repeat split; reflexivity. Qed.
+
+(* array-mode sketches of all three types built from a 200-coupon stream: the hypothesis est_ok
+   holds, the image is accepted, and the copy re-serializes to the identical bytes *)
+Lemma rt_example_of : forall lgk t, rt_example_check lgk t = true ->
+  exists s s', run_stream hip_new hip_update hip_carry lgk t HllC02.ex_stream2 = Ok s /\ sk_tag s = TagArray /\ est_ok s /\
+    hll_deserialize (hll_serialize s) = Ok s' /\ hll_serialize s' = hll_serialize s.
+Proof.
+  intros lgk t H. unfold rt_example_check in H. apply obool_true in H. destruct H as (s & Hr & H).
+  apply andb_prop in H. destruct H as [H H3]. apply andb_prop in H. destruct H as [H1 H2].
+  apply obool_true in H3. destruct H3 as (s' & Hd & He). exists s, s'. split; [assumption|].
+  split; [destruct (sk_tag s); (discriminate || reflexivity)|]. split; [now apply est_okb_ok|]. split; [assumption|now apply Nlist_eqb_eq].
+Qed.
+
+Lemma rt_example : 
+  (exists s s', run_stream hip_new hip_update hip_carry 8 T4 HllC02.ex_stream2 = Ok s /\ sk_tag s = TagArray /\ est_ok s /\
+    hll_deserialize (hll_serialize s) = Ok s' /\ hll_serialize s' = hll_serialize s) /\
+  (exists s s', run_stream hip_new hip_update hip_carry 8 T6 HllC02.ex_stream2 = Ok s /\ sk_tag s = TagArray /\ est_ok s /\
+    hll_deserialize (hll_serialize s) = Ok s' /\ hll_serialize s' = hll_serialize s) /\
+  (exists s s', run_stream hip_new hip_update hip_carry 9 T8 HllC02.ex_stream2 = Ok s /\ sk_tag s = TagArray /\ est_ok s /\
+    hll_deserialize (hll_serialize s) = Ok s' /\ hll_serialize s' = hll_serialize s).
+Proof. destruct rt_example_computed as (A & B & C). split; [now apply rt_example_of|]. split; now apply rt_example_of. Qed.
 
 (* ================= C13: foreign variants (list mode) ================= *)
 From DS Require Import Spec.HllLayout.
@@ -1073,8 +1317,8 @@ Definition list_of_coupons (cs : list N) : hlist := mkList 3 (cs ++ repeat 0 (8 
 
 Lemma list_of_coupons_inv : forall cs, NoDup cs -> Forall valid cs -> (length cs < 8)%nat -> ListInv (list_of_coupons cs) cs.
 Proof.
-  intros cs Hnd Hv Hlen. unfold ListInv, list_of_coupons. cbn [hl_coupons hl_len]. split; [reflexivity|]. split; [reflexivity|].
-  split; [assumption|]. split; [|lia]. intros H0. rewrite Forall_forall in Hv. apply (valid_nonzero 0 (Hv 0 H0)). reflexivity.
+  intros cs Hnd Hv Hlen. unfold ListInv, list_of_coupons. cbn [hl_coupons hl_len hl_lg]. split; [reflexivity|]. split; [reflexivity|].
+  split; [assumption|]. split; [|split; [lia|reflexivity]]. intros H0. rewrite Forall_forall in Hv. apply (valid_nonzero 0 (Hv 0 H0)). reflexivity.
 Qed.
 
 (* the spec encoder's compact list image is what the crate's writer would emit for that list *)
@@ -1091,13 +1335,20 @@ Proof.
   - reflexivity.
 Qed.
 
+Lemma list_insert_all_zeros : forall vs n l, list_insert_all (vs ++ repeat 0 n) l = list_insert_all vs l.
+Proof.
+  induction vs as [|v r IH]; intros n l; cbn [app list_insert_all].
+  - induction n as [|n IHn]; cbn [repeat list_insert_all]; [reflexivity|]. rewrite COUPON_EMPTY_0. change (0 =? 0) with true. exact IHn.
+  - destruct (v =? COUPON_EMPTY); [apply IH|]. destruct (get_value v =? 0); [reflexivity|apply IH].
+Qed.
+
 (* both list variants of the cross-language format are read back to the list they encode *)
 Theorem list_variants_read_back : forall compact lgk t cs, 4 <= lgk <= 21 -> NoDup cs -> Forall valid cs -> (length cs < 8)%nat ->
   hll_deserialize (enc_list compact lgk (tgt_num t) cs) = Ok (mkSketch lgk (MList (list_of_coupons cs) t)).
 Proof.
   intros compact lgk t cs Hlg Hnd Hv Hlen. destruct compact.
   - rewrite (enc_list_compact_is_serialize lgk t cs Hlen Hv).
-    apply (list_roundtrip lgk t (list_of_coupons cs) cs Hlg (list_of_coupons_inv cs Hnd Hv Hlen) eq_refl Hlen Hv).
+    apply (list_roundtrip lgk t (list_of_coupons cs) cs Hlg (list_of_coupons_inv cs Hnd Hv Hlen) Hlen Hv).
   - (* updatable: all 8 slots stored *)
     destruct (mode_byte_fields MODE_LIST t ltac:(vm_compute; reflexivity)) as (Hm1 & Hm2 & Hm3).
     unfold enc_list. replace (mode_b L_MODE_LIST (tgt_num t)) with (mode_byte MODE_LIST t) by (destruct t; reflexivity).
@@ -1117,11 +1368,14 @@ Proof.
     + set (dss := d :: ds') in *. replace (N.of_nat (length dss) =? 0) with false by (unfold dss; cbn [length]; lia).
       replace (negb (negb (N.land (0 + 0) EMPTY_FLAG =? 0))) with true by reflexivity.
       replace (negb (N.land (0 + 0) COMPACT_FLAG =? 0)) with false by reflexivity.
-      replace (0 <? N.of_nat (length dss)) with true by (unfold dss; cbn [length]; lia). cbn [andb].
+      replace (0 <? N.of_nat (length dss)) with true by (unfold dss; cbn [length]; lia). cbn [andb orb].
       change (u32l (dss ++ repeat 0 (8 - length dss))) with (u32s (dss ++ repeat 0 (8 - length dss))).
       replace 8 with (N.of_nat (length (dss ++ repeat 0 (8 - length dss)))) at 1 by (rewrite Hpl; reflexivity).
       rewrite <- (app_nil_r (u32s _)). rewrite read_count_u32s_u32s by assumption. cbn [obind fst].
-      rewrite N.sub_diag. cbn [N.to_nat repeat]. rewrite app_nil_r. reflexivity.
+      rewrite list_insert_all_zeros.
+      destruct (list_insert_all_fresh dss (list_new 3) [] list_new_inv Hnd Hv ltac:(cbn [length]; lia)) as (l' & Hr & HL').
+      cbn [app] in HL'. rewrite Hr. cbn [obind]. pose proof HL' as (_ & Hl' & _). rewrite Hl', N.eqb_refl. cbn [negb].
+      rewrite (list_inv_eq (list_of_coupons dss) l' dss (list_of_coupons_inv dss Hnd Hv Hlen) HL'). reflexivity.
 Qed.
 
 (* ================= C13: Hll8 array images, every flag variant ================= *)
@@ -1139,9 +1393,10 @@ Proof.
   change (MODE_HLL =? MODE_LIST) with false. change (MODE_HLL =? MODE_SET) with false. cbv iota. reflexivity.
 Qed.
 
-Theorem hll8_variants_read_back : forall lgk lg_arr flags cm hipb q0b q1b num auxc regs tail,
+(* any flags byte: the general form (the reader ignores COMPACT and EMPTY for array images) *)
+Lemma hll8_any_flags_read_back : forall lgk lg_arr flags cm hipb q0b q1b num auxc regs tail,
   4 <= lgk <= 21 -> length hipb = 8%nat -> length q0b = 8%nat -> length q1b = 8%nat ->
-  length regs = N.to_nat (2 ^ lgk) -> (forall v, In v regs -> v <= 63) ->
+  length regs = N.to_nat (2 ^ lgk) -> (forall v, In v regs -> v <= 63) -> image_fields_ok hipb q0b q1b = true ->
   exists a, hll_deserialize ([HLL_PREINTS; SER_VER; FAMILY_HLL; lgk; lg_arr; flags; cm; mode_byte MODE_HLL T8]
                              ++ hipb ++ q0b ++ q1b ++ le_bytes 4 num ++ le_bytes 4 auxc ++ regs ++ tail)
             = Ok (mkSketch lgk (MArr8 a)) /\
@@ -1149,10 +1404,11 @@ Theorem hll8_variants_read_back : forall lgk lg_arr flags cm hipb q0b q1b num au
     a8_nz a = N.of_nat (length (filter (fun v => v =? 0) regs)) /\
     a8_est a = est_of_image hipb q0b q1b (negb (N.land flags OOO_FLAG =? 0)).
 Proof.
-  intros lgk lg_arr flags cm hipb q0b q1b num auxc regs tail Hlg H1 H2 H3 Hlen H63.
+  intros lgk lg_arr flags cm hipb q0b q1b num auxc regs tail Hlg H1 H2 H3 Hlen H63 Hf.
   rewrite hll_deserialize_any_hll8_header by assumption. unfold a8_deserialize, read_hll_body.
   rewrite (take_app_n 8 _ _ H1). cbn [obind fst snd]. rewrite (take_app_n 8 _ _ H2). cbn [obind fst snd].
-  rewrite (take_app_n 8 _ _ H3). cbn [obind fst snd]. rewrite (take_app_n 4 _ _ (le_bytes_length 4 _)). cbn [obind fst snd].
+  rewrite (take_app_n 8 _ _ H3). cbn [obind fst snd]. rewrite Hf. cbn [negb].
+  rewrite (take_app_n 4 _ _ (le_bytes_length 4 _)). cbn [obind fst snd].
   rewrite (take_app_n 4 _ _ (le_bytes_length 4 _)). cbn [obind fst snd]. rewrite (take_app_n _ _ _ Hlen). cbn [obind fst snd].
   assert (Hex : existsb (fun v => MAX_VALUE <? v) regs = false).
   { destruct (existsb _ regs) eqn:E; [|reflexivity]. apply existsb_exists in E. destruct E as (v & Hv & Hgt).
@@ -1160,4 +1416,35 @@ Proof.
   rewrite Hex. eexists. split; [reflexivity|]. unfold a8_get. cbn [a8_lgk a8_bytes a8_nz a8_est].
   split; [reflexivity|]. split; [|split; reflexivity].
   intros j. rewrite arr_of_list_get, Hlen, N2Nat.id, N.add_0_l, N.sub_0_r, aget_empty. replace (0 <=? j) with true by lia. reflexivity.
+Qed.
+
+(* the Hll8 array image of the SPEC encoder (Spec.HllLayout.enc_hll_pre: COMPACT flag on or off, OOO
+   flag on or off, any lg_arr byte, any cur_min byte, any num_at_cur_min / aux count fields, any
+   trailing bytes) whose three estimator fields are finite and non-negative is read back to an
+   Array8 with exactly the encoded registers, the recomputed zero count, the encoded kxq0 / kxq1 and
+   OOO flag, and the encoded HIP accumulator unless the image is out of order (then 0) *)
+Theorem hll8_variants_read_back : forall compact ooo lgk lg_arr cm hipv q0 q1 num auxc regs tail,
+  4 <= lgk <= 21 -> hipv < 2 ^ 64 -> q0 < 2 ^ 64 -> q1 < 2 ^ 64 ->
+  length regs = N.to_nat (2 ^ lgk) -> (forall v, In v regs -> v <= 63) ->
+  image_field_ok (float_of_bits (Nz hipv)) = true -> image_field_ok (float_of_bits (Nz q0)) = true ->
+  image_field_ok (float_of_bits (Nz q1)) = true ->
+  exists a, hll_deserialize (enc_hll_pre compact ooo lgk 2 lg_arr cm hipv q0 q1 num auxc ++ regs ++ tail)
+            = Ok (mkSketch lgk (MArr8 a)) /\
+    a8_lgk a = lgk /\ (forall j, a8_get a j = if j <? 2 ^ lgk then nth (N.to_nat j) regs 0 else 0) /\
+    a8_nz a = N.of_nat (length (filter (fun v => v =? 0) regs)) /\
+    h_ooo (a8_est a) = ooo /\ h_kxq0 (a8_est a) = float_of_bits (Nz q0) /\ h_kxq1 (a8_est a) = float_of_bits (Nz q1) /\
+    h_accum (a8_est a) = if ooo then 0%float else float_of_bits (Nz hipv).
+Proof.
+  intros compact ooo lgk lg_arr cm hipv q0 q1 num auxc regs tail Hlg Hh H0 H1 Hlen H63 Fh F0 F1.
+  assert (V : forall x, x < 2 ^ 64 -> le_val (le_bytes 8 x) = x).
+  { intros x Hx. apply le_val_le_bytes_small. exact Hx. }
+  set (flags := (if compact then L_FLAG_COMPACT else 0) + (if ooo then L_FLAG_OOO else 0)).
+  assert (Hfl : negb (N.land flags OOO_FLAG =? 0) = ooo) by (unfold flags; destruct compact, ooo; reflexivity).
+  destruct (hll8_any_flags_read_back lgk lg_arr flags cm (le_bytes 8 hipv) (le_bytes 8 q0) (le_bytes 8 q1) num auxc regs tail Hlg
+              (le_bytes_length 8 _) (le_bytes_length 8 _) (le_bytes_length 8 _) Hlen H63) as (a & Hd & A & B & C & D).
+  { unfold image_fields_ok. rewrite !V by assumption. rewrite Fh, F0, F1. reflexivity. }
+  exists a. split.
+  - rewrite <- Hd. unfold enc_hll_pre. fold flags. rewrite <- !app_assoc. reflexivity.
+  - split; [assumption|]. split; [assumption|]. split; [assumption|]. rewrite D, Hfl. unfold est_of_image, hip_set_ooo.
+    cbn [h_ooo h_kxq0 h_kxq1 h_accum]. rewrite !V by assumption. repeat split; reflexivity.
 Qed.
